@@ -147,19 +147,22 @@ def attachFrom (mark : Str) : ASt → List Str → ASt
 def attach (mark : Str) (items : List Str) : List Ent :=
   (attachFrom mark { ents := [⟨fileName, true, [], []⟩] } items).ents
 
-/-- what `read_metadata` leaves: (metadata, final `doc_list`) of a non-file entity -/
-def entDoc (fields : List Str) (e : Ent) : MetaDict × List Str :=
-  if e.split then
+/-- what `read_metadata` leaves: (metadata, final `doc_list`) of a non-file entity.
+    `rep` selects the variant of the code: `false` = as is (module-procedure references get
+    their docstring after `read_metadata` ran, so it is not split; finding
+    C03-modproc-metadata-not-split), `true` = with fixes/C03-modproc-metadata.diff applied. -/
+def entDoc (fields : List Str) (rep : Bool) (e : Ent) : MetaDict × List Str :=
+  if e.split || rep then
     let r := readMetadata fields e.init
     (r.1, r.2 ++ e.extra)
   else ([], e.init ++ e.extra)
 
 /-- (name, metadata, final doc_list) of every entity; the first one is the source file,
     whose `doc_list` is filled by its loop and split at the end -/
-def entDocs (fields : List Str) : List Ent → List (Str × MetaDict × List Str)
+def entDocs (fields : List Str) (rep : Bool) : List Ent → List (Str × MetaDict × List Str)
   | [] => []
   | f :: rest =>
     (f.name, readMetadata fields (f.init ++ f.extra)) ::
-      rest.map (fun e => (e.name, entDoc fields e))
+      rest.map (fun e => (e.name, entDoc fields rep e))
 
 end Ford
